@@ -304,20 +304,29 @@ Theorem C09_other_streams_untouched :
 Proof. exact other_streams_untouched. Qed.
 Print Assumptions C09_other_streams_untouched.
 
-(* The full statement - not proved. `about g o`: the output o is a frame, dispatch or release of stream g.
+(* THE FULL STATEMENT (two-run form). `about_stream g o` (Proofs/SrvIsoTwoRun.v): the output o is a frame, a
+   dispatch or a release of stream g.
    Dropping from a run a DATA frame that was in flight for a stream the server had reset (it is in the ring with
-   weReset, not in the table) changes nothing that concerns any other stream. What is missing: a relational
-   ("two runs") invariant saying that the states of the two runs agree on everything but sc_currentWindow and the
-   connection-level WINDOW_UPDATEs in sc_out, preserved by every function of the model. The parts that ARE proved:
-   the decoder state (C09_hpack_independent_of_stream_fates), the request state of every other stream
-   (C09_other_streams_untouched), the reaction to the dropped frame itself (C09_cat_inflight_data: the
-   connection window is credited, nothing else). *)
-Definition about_stream (g : N) (o : outev) : bool :=
-  match o with
-  | OHeaders s _ _ | OData s _ _ | ORst s _ | ODispatch s _ | ORelease s _ => s =? g
-  | OWinUpd s _ => s =? g
-  | _ => false
-  end.
+   weReset, not in the table) changes nothing that concerns any stream.
+
+   How it is proved (Proofs/SrvIsoTwoRun.v). The reaction to such a frame is C09_cat_inflight_data: the connection
+   receive window is credited, nothing else - and the credit is DEFERRED (credit_conn_window: sc_currentWindow is
+   lowered; a connection-level WINDOW_UPDATE is queued only when it falls under half of cf_maxWindow). So after the
+   cut the two runs differ in sc_currentWindow and, sooner or later, in the connection-level WINDOW_UPDATEs of
+   sc_out. The relation
+       R c c'  :=  c and c' agree on every field but sc_currentWindow and sc_out, and
+                   filt (sc_out c) = filt (sc_out c')     (filt strikes out OWinUpd 0 _ and OLate (OWinUpd 0 _))
+   is preserved by every function of the model applied to both sides (sc_currentWindow is read by credit_conn_window
+   only, where it decides nothing but when that WINDOW_UPDATE goes out; sc_out is never read), hence by every step
+   with the same event (C09_two_run_invariant) and every continuation of the two runs.
+   [The model has no receive-window enforcement: the server never checks that the peer stays within the window it
+   announced, so sc_currentWindow can influence nothing else. A server that enforced it (FLOW_CONTROL_ERROR) would
+   need the extra hypothesis that the peer respects the window in both runs.]
+   The frame reaches the stream loop because ids in the ring are odd (C09_ring_ids_odd: an invariant of all runs:
+   the read loop lets no even stream id through). If the stream loop has already ended at the cut, the read loop
+   stops at the frame instead (OExit 0 2) and neither run says anything more about any stream. *)
+From H2V Require Import Proofs.SrvIsoTwoRunOdd Proofs.SrvIsoTwoRun Proofs.SrvIsoTwoRunEx.
+
 Definition C09_noninterference_statement : Prop :=
   forall hstate (dec_field : hstate -> N -> bytes -> dec_res hstate) enc_field enc_set_max cfg h0 evs1 fr evs2 g,
     let c1 := run dec_field enc_field enc_set_max cfg h0 evs1 in
@@ -327,6 +336,57 @@ Definition C09_noninterference_statement : Prop :=
     clean dec_field enc_field enc_set_max cfg h0 (evs1 ++ [EvRL (RFrame fr); EvSL] ++ evs2) ->
     filter (about_stream g) (trace (run dec_field enc_field enc_set_max cfg h0 (evs1 ++ [EvRL (RFrame fr); EvSL] ++ evs2))) =
     filter (about_stream g) (trace (run dec_field enc_field enc_set_max cfg h0 (evs1 ++ evs2))).
+
+Theorem C09_noninterference : C09_noninterference_statement.
+Proof. exact noninterference_as_stated. Qed.
+Print Assumptions C09_noninterference.
+
+(* the same without `clean` (the rest of the run may contain anything: connection errors, a dead write loop, a
+   stream loop that has ended) and for g = the reset stream too *)
+Theorem C09_noninterference_any_run :
+  forall hstate (dec_field : hstate -> N -> bytes -> dec_res hstate) enc_field enc_set_max cfg h0 evs1 fr evs2 g,
+    let c1 := run dec_field enc_field enc_set_max cfg h0 evs1 in
+    sf_kind fr = KData -> sf_sid fr <> 0 -> g <> 0 ->
+    strms_search (sc_strms c1) (sf_sid fr) = None -> ring_find c1 (sf_sid fr) = Some true ->
+    sc_readerQ c1 = [] -> sc_rl_done c1 = false -> sc_expectCont c1 = 0 ->
+    filter (about_stream g) (trace (run dec_field enc_field enc_set_max cfg h0 (evs1 ++ [EvRL (RFrame fr); EvSL] ++ evs2))) =
+    filter (about_stream g) (trace (run dec_field enc_field enc_set_max cfg h0 (evs1 ++ evs2))).
+Proof. exact noninterference. Qed.
+Print Assumptions C09_noninterference_any_run.
+
+(* what does NOT change, at full strength: while the stream loop runs at the cut, the two final STATES are related by
+   R - same stream table, abandoned streams, counters, ring, ids, send window, HPACK encoder and decoder, closing /
+   done / closer / write-loop flags, reader queue, clock, discard registers; same outputs in the same order but for
+   connection-level WINDOW_UPDATEs *)
+Theorem C09_two_runs_related :
+  forall hstate (dec_field : hstate -> N -> bytes -> dec_res hstate) enc_field enc_set_max cfg h0 evs1 fr evs2,
+    let c1 := run dec_field enc_field enc_set_max cfg h0 evs1 in
+    sf_kind fr = KData -> sf_sid fr <> 0 ->
+    strms_search (sc_strms c1) (sf_sid fr) = None -> ring_find c1 (sf_sid fr) = Some true ->
+    sc_readerQ c1 = [] -> sc_rl_done c1 = false -> sc_expectCont c1 = 0 -> sc_sl_done c1 = false ->
+    R (run dec_field enc_field enc_set_max cfg h0 (evs1 ++ [EvRL (RFrame fr); EvSL] ++ evs2))
+      (run dec_field enc_field enc_set_max cfg h0 (evs1 ++ evs2)).
+Proof. exact two_runs_related. Qed.
+Print Assumptions C09_two_runs_related.
+
+(* the relational invariant itself: in ANY two states *)
+Theorem C09_two_run_invariant :
+  forall hstate (dec_field : hstate -> N -> bytes -> dec_res hstate) enc_field enc_set_max cfg (c c' : sconn hstate) e,
+    R c c' -> R (step dec_field enc_field enc_set_max cfg c e) (step dec_field enc_field enc_set_max cfg c' e).
+Proof. exact R_step. Qed.
+Print Assumptions C09_two_run_invariant.
+
+(* what R gives for one stream's view of the trace *)
+Theorem C09_related_outputs : forall g l, g <> 0 -> filter (about_stream g) (filt l) = filter (about_stream g) l.
+Proof. exact about_filt. Qed.
+Print Assumptions C09_related_outputs.
+
+(* ids remembered in the ring of closed streams are odd, in every run *)
+Theorem C09_ring_ids_odd :
+  forall hstate (dec_field : hstate -> N -> bytes -> dec_res hstate) enc_field enc_set_max cfg h0 evs id b,
+    ring_find (run dec_field enc_field enc_set_max cfg h0 evs) id = Some b -> N.land id 1 = 1.
+Proof. exact ring_ids_odd. Qed.
+Print Assumptions C09_ring_ids_odd.
 
 (* ================= examples (real HPACK instance; by computation) ================= *)
 (* One connection (at most 2 concurrent streams): stream 1 stays open; stream 3 has a malformed field in a HEADERS
@@ -396,3 +456,31 @@ Example C09_example_shutdown_completes :
     [ODispatch 3 (ex_req []); OHeaders 3 true [137]; ORelease 3 true; OGoAway 3 c_StreamClosedError;
      ORst 1 c_ProtocolError; ORelease 1 true; OExit 1 0].
 Proof. split; [exact sd_before | exact sd_after]. Qed.
+
+(* (c), the two runs (real HPACK instance). Stream 1: POST, body to come; stream 3: a field with an upper-case name:
+   reset. The cut: a padded DATA frame for stream 3 that was in flight (3 octets of data, 40000 on the wire). Then
+   stream 5 (refers to the table entry of stream 1's block), stream 1's body, both handlers return. The hypotheses of
+   C09_noninterference hold at the cut (stream 1 is open in the table, 3 is in the ring with weReset); the longer run
+   is clean; the two traces differ in the connection-level WINDOW_UPDATE only; stream 1's view is the same. *)
+Example C09_example_noninterference :
+  (let c1 := srv_run t_cfg t_evs1 in
+   sf_kind t_fr = KData /\ sf_sid t_fr = 3 /\ N.land (sf_sid t_fr) 1 = 1 /\ len (sf_payload t_fr) < sf_len t_fr /\
+   strms_search (sc_strms c1) (sf_sid t_fr) = None /\ ring_find c1 (sf_sid t_fr) = Some true /\
+   map st_id (sc_strms c1) = [1] /\
+   sc_readerQ c1 = [] /\ sc_rl_done c1 = false /\ sc_sl_done c1 = false /\ sc_expectCont c1 = 0) /\
+  clean srv_dec_field srv_enc_field set_max_table_size t_cfg srv_init_hpack (t_evs1 ++ [EvRL (RFrame t_fr); EvSL] ++ t_evs2) /\
+  srv_trace (srv_run t_cfg (t_evs1 ++ [EvRL (RFrame t_fr); EvSL] ++ t_evs2)) =
+    [ORst 3 c_ProtocolError; ORelease 3 true; OWinUpd 0 40000; ODispatch 5 (ex_req [([97],[98])]); ODispatch 1 t_rq1;
+     OHeaders 5 false [136]; OData 5 true [53]; ORelease 5 true; OHeaders 1 false [136]; OData 1 true [49]; ORelease 1 true] /\
+  srv_trace (srv_run t_cfg (t_evs1 ++ t_evs2)) =
+    [ORst 3 c_ProtocolError; ORelease 3 true; ODispatch 5 (ex_req [([97],[98])]); ODispatch 1 t_rq1;
+     OHeaders 5 false [136]; OData 5 true [53]; ORelease 5 true; OHeaders 1 false [136]; OData 1 true [49]; ORelease 1 true] /\
+  filter (about_stream 1) (srv_trace (srv_run t_cfg (t_evs1 ++ [EvRL (RFrame t_fr); EvSL] ++ t_evs2))) =
+    [ODispatch 1 t_rq1; OHeaders 1 false [136]; OData 1 true [49]; ORelease 1 true] /\
+  filter (about_stream 1) (srv_trace (srv_run t_cfg (t_evs1 ++ t_evs2))) =
+    [ODispatch 1 t_rq1; OHeaders 1 false [136]; OData 1 true [49]; ORelease 1 true].
+Proof.
+  split; [exact t_hyps|]. split; [apply cleanb_sound; exact t_cleanb|]. split; [exact t_trace_with|].
+  split; [exact t_trace_without|]. exact t_about_1.
+Qed.
+Print Assumptions C09_example_noninterference.
